@@ -25,6 +25,9 @@
 package c12
 
 import (
+	"errors"
+	"bytes"
+	"github.com/nspcc-dev/neo-go/pkg/smartcontract/trigger"
 	"fmt"
 	"strings"
 
@@ -45,6 +48,10 @@ type Case struct {
 	GasLimit int64    `json:"gas"`             // datoshi, >= 0 (finite)
 	BaseFee  int64    `json:"base_fee"`        // picoGAS per opcode price unit (production default 30*10000)
 	Hint     string   `json:"hint,omitempty"`  // what the generator was aiming at (label only, the oracle does not read it)
+	// Prev: a script run to its end (HALT or FAULT, same gas limit) on the same VM object before, followed by
+	// VM.Reset: the node reuses one VM for all transactions of a block (interop.Context.SpawnVM), so whatever a run
+	// leaves behind in slots, invocation frames or counters must be gone for the next one.
+	Prev vt.Bytes `json:"prev,omitempty"`
 }
 
 // Limits of the property statement.
@@ -102,7 +109,16 @@ func minCallCoef() int64 {
 }
 
 // Report is what a monitored run observed (classification only).
+// strictKnown switches the exclusion of listed findings off (used by the probe that re-confirms them).
+var strictKnown bool
+
+// LoadSyscallID is the identifier of the harness's script-loading system call (see monitor).
+const LoadSyscallID = 0x76657269
+
 type Report struct {
+	Leaky     bool   // the listed finding KnownCalleeStackLeak may have happened in this run
+	DynLoads  int    // scripts loaded through the harness's system call (frames with an evaluation stack of their own)
+	PrevState string // state the previous run on the same VM ended in ("" when there was none)
 	Steps              int
 	State              string // HALT | FAULT | CAPPED
 	FaultMsg           string
@@ -168,6 +184,21 @@ func monitor(c Case, stepCap, workCap int) (*Report, error) {
 	}
 
 	v := vm.New()
+	if len(c.Prev) > 0 {
+		v.SetPriceGetter(func(op opcode.Opcode, _ []byte) int64 { return fee.Opcode(base, op) })
+		v.SetGasLimit(c.GasLimit)
+		v.LoadScriptWithFlags([]byte(c.Prev), callflag.All)
+		var escaped any
+		func() {
+			defer func() { escaped = recover() }()
+			_ = v.Run()
+		}()
+		if escaped != nil {
+			return rep, fmt.Errorf("Go panic escaped from VM.Run of the previous script %x: %v", []byte(c.Prev), escaped)
+		}
+		rep.PrevState = v.State().String()
+		v.Reset(trigger.Application)
+	}
 	v.SetPriceGetter(func(op opcode.Opcode, _ []byte) int64 { return fee.Opcode(base, op) })
 	v.SetGasLimit(c.GasLimit)
 	progs := make([]progInfo, 0, 2)
@@ -181,6 +212,24 @@ func monitor(c Case, stepCap, workCap int) (*Report, error) {
 			}
 		}
 		progs = append(progs, pi)
+	}
+	// The harness's own system call: pops a byte string and loads it as a script with an evaluation stack of its own
+	// (what System.Contract.Call / System.Runtime.LoadScript do), charged like a CALL so that the step bound holds.
+	v.SyscallHandler = func(vv *vm.VM, id uint32) error {
+		if id != LoadSyscallID {
+			return errors.New("syscall not found")
+		}
+		b, err := vv.Estack().Pop().Item().TryBytes()
+		if err != nil {
+			return err
+		}
+		if err := vv.AddPicoGas(minCallCoef() * base); err != nil {
+			return err
+		}
+		vv.LoadScriptWithFlags(bytes.Clone(b), callflag.All)
+		addProg(vv.Context().Program())
+		rep.DynLoads++
+		return nil
 	}
 	if len(c.Below) > 0 {
 		v.LoadScriptWithFlags([]byte(c.Below), callflag.All)
@@ -253,7 +302,7 @@ func monitor(c Case, stepCap, workCap int) (*Report, error) {
 		switch {
 		case refs < w.count:
 			return fmt.Errorf("%s: the VM's item counter is %d but walking stacks and slots finds %d items (under-count)", when, refs, w.count)
-		case !rep.Cyclic && refs != w.count:
+		case !rep.Cyclic && !rep.Leaky && refs != w.count:
 			return fmt.Errorf("%s: no cyclic structure was ever built, yet the VM's item counter is %d while walking stacks and slots finds %d items", when, refs, w.count)
 		case w.count > limitItems:
 			return fmt.Errorf("%s: %d items are on the stacks, in slots and reachable from them (limit %d) and the VM did not FAULT (its own counter says %d)", when, w.count, limitItems, refs)
@@ -356,6 +405,12 @@ func monitor(c Case, stepCap, workCap int) (*Report, error) {
 			return rep, nil
 		}
 		when := fmt.Sprintf("after step %d (%s at offset %d)", rep.Steps, op, ip)
+		// Listed finding KnownCalleeStackLeak: frames removed by something else than RET (an exception found its handler
+		// further down) after a script with a stack of its own was loaded: what was on that stack stays counted. From
+		// here on the counter is only required not to under-count.
+		if rep.DynLoads > 0 && len(v.Istack()) < depthBefore && op != opcode.RET && vt.Known(KnownCalleeStackLeak) && !strictKnown {
+			rep.Leaky = true
+		}
 
 		// Cycle tracking: only APPEND and SETITEM add an edge to an existing compound, and the compound they modify was
 		// their operand, so any cycle built by this instruction passes through `container` (even if nothing refers to it
@@ -514,6 +569,16 @@ func checkCase(c Case, o *vt.Obs) error {
 		o.Label("shape-map-self-remove")
 	}
 	o.Label("end-" + rep.State)
+	if rep.DynLoads > 0 {
+		o.Label("dynamic-load")
+	}
+	if strings.Contains(c.Hint, "excl:"+KnownCalleeStackLeak) || rep.Leaky {
+		o.Excluded()
+		o.Label("excl:" + KnownCalleeStackLeak)
+	}
+	if rep.PrevState != "" {
+		o.Label("vm-reused-after-" + rep.PrevState)
+	}
 	if rep.HitLimit != "" {
 		o.Label(rep.HitLimit)
 	}
